@@ -59,7 +59,10 @@ type sworld struct {
 	sink      *sinkRec
 }
 
-func newSLoader(ctx context.Context, lg *srvx.Logger, sink *sinkRec, kc *keychainRec, feed cfgFeed) *loader.Loader {
+// cfgSource is what loader.NewLoader consumes configurations from (the instrumented signature of Config()).
+type cfgSource interface{ Config() cfgChan }
+
+func newSLoader(ctx context.Context, lg *srvx.Logger, sink *sinkRec, kc *keychainRec, feed cfgSource) *loader.Loader {
 	acct, err := local.New(lg, local.SetLogSink(sink))
 	if err != nil {
 		panic(err)
@@ -247,6 +250,8 @@ func c15Jobs() []sjob {
 		}},
 		{"H4-yaml consumer of a published configuration concurrent with the next load", func(x *sx) { c15H4(x, "yaml") }},
 		{"H4-json consumer of a published configuration concurrent with the next load", func(x *sx) { c15H4(x, "json") }},
+		{"H10-yaml the loader's update loop polling a file loader while the watcher loads the next document", func(x *sx) { c15H10(x, "yaml") }},
+		{"H10-json the loader's update loop polling a file loader while the watcher loads the next document", func(x *sx) { c15H10(x, "json") }},
 		{"H5 one connection multiplexing two sessions plus a second connection", func(x *sx) {
 			w := newSWorldR(e.Cfg, nil)
 			w.serve()
@@ -485,6 +490,57 @@ func c15H4(x *sx, format string) {
 		_ = second
 	}
 	x.obs = fmt.Sprint(len(seen1), len(after))
+}
+
+// c15H10: the production wiring - loader.Loader consumes from the file loader object itself (through the fsnotify watcher,
+// which only forwards Config()), so its update loop calls Config() on the object while the watcher's goroutine loads the
+// next document into it; a lookup runs at the same time.
+func c15H10(x *sx, format string) {
+	docs := c16DocsForSched()
+	var l interface {
+		Unmarshal(b []byte) error
+		Config() cfgChan
+	}
+	if format == "yaml" {
+		l = yamlloader.New()
+	} else {
+		l = jsonloader.New()
+	}
+	text := func(i int) []byte {
+		b, err := json.Marshal(docs[i])
+		if err != nil {
+			panic(err)
+		}
+		return b // JSON is valid YAML
+	}
+	if err := l.Unmarshal(text(0)); err != nil {
+		x.fail("H10/load", err.Error())
+		return
+	}
+	lg, sink := &srvx.Logger{}, &sinkRec{}
+	ctx, cancel := context.WithCancel(context.Background())
+	defer cancel()
+	ld := newSLoader(ctx, lg, sink, nil, l)
+	ld.BlockUntilLoaded()
+	var wg vsyncrt.WaitGroup
+	wg.Add(2)
+	var secret []byte
+	var gerr error
+	vsyncrt.Go(func() {
+		if err := l.Unmarshal(text(1)); err != nil {
+			x.fail("H10/load", err.Error())
+		}
+		wg.Done()
+	})
+	vsyncrt.Go(func() {
+		secret, _, gerr = ld.Get(context.Background(), srvx.Addr4(10, 1, 1, 7, 99))
+		wg.Done()
+	})
+	wg.Wait()
+	if gerr != nil || string(secret) != "k1" {
+		x.fail("H10/functional", fmt.Sprintf("lookup answered secret %q err %v; both documents serve 10.0.0.0/8 with k1", secret, gerr))
+	}
+	x.obs = fmt.Sprint(len(secret))
 }
 
 func c16DocsForSched() []config.ServerConfig {
